@@ -65,10 +65,12 @@ impl impl_details::CacheImplDetails for MemoryStore {
         if record.header.timestamp + (record.header.time_to_live as u64) > current_time {
             return false;
         }
-        match self.remove(key) {
-            Some(_) => true,
-            None => true,
-        }
+        // remove only what is still expired: the record may have been replaced since it was read
+        self.memory.remove_if(key, |_key, stored| {
+            stored.header.time_to_live != 0
+                && stored.header.timestamp + (stored.header.time_to_live as u64) <= current_time
+        });
+        true
     }
 }
 
